@@ -1,7 +1,7 @@
 (** Property C13 - vertical (sigma) calculus.  Statements only; proofs are in
     Thm/Sigma.v.  Every theorem is for an arbitrary field [F] (hence the
     reals), an arbitrary number of layers [K] and arbitrary boundaries. *)
-From Dino Require Import Base.Ops Base.Sums Base.Inst Model.Sigma Thm.Sigma.
+From Dino Require Import Base.Ops Base.Sums Base.Inst Base.Ord Model.Sigma Thm.Sigma.
 From Coq Require Import Reals Qcanon Lra.
 Local Open Scope F_scope.
 
